@@ -95,12 +95,18 @@ func isClientActive() bool {
 }
 
 func processAllClients(op func(id int64, cs *clientState)) {
+	// the operation runs without the registry lock: it may take data store locks, and commands
+	// that hold a data store lock (EXEC) may need the registry
 	clientsMu.Lock()
-	defer clientsMu.Unlock()
+	snapshot := make([]*clientState, 0, len(clients))
+	for _, cs := range clients {
+		snapshot = append(snapshot, cs)
+	}
+	clientsMu.Unlock()
 
-	for id, cs := range clients {
+	for _, cs := range snapshot {
 		if !cs.client.IsCloseRequested() {
-			op(id, cs)
+			op(cs.id, cs)
 		}
 	}
 }
